@@ -153,6 +153,8 @@ def run(ck):
     _save_writes_its_argument(ck)
     # ------------------------------------------------------------------ C08.11 / C08.12
     aliased_lists(ck, "C08.12")
+    ck.clause("C08.14", "a record keeps the resolver's segments in the resolver's order (the join works on segments[0] of its parts)")
+    record_segments_as_resolved(ck, "C08.14")
     # argument roles in the multi-pass coordinator (reference / query lists are both List[OpticalMap]: an exchange runs)
     ck.clause("C08.9", "argument roles in the multi-pass coordinator: reference and query arguments are not exchanged")
     from ..rules import role as R
@@ -664,6 +666,46 @@ def _joined_segments(ck, fn, w, src, resolution, pl, pr, facts):
                    f"{T.show(T.mk_idx(T.mk_attr(S, 'segments'), C(pr[1])))[-40:]}); nothing else of either part is kept",
              required="all segments of both parts, e.g. the conflict resolver run over self.segments + alignedRest.segments "
                       "(or parts known to hold one segment each)")
+
+
+def record_segments_as_resolved(ck, rule):
+    """AlignmentResultRow.create stores the resolver's segment list as it is: the join (AlignmentResultRow.resolve) works on
+    segments[0] of each part and relies on the chain order - empty segments behind the real ones"""
+    p = ck.ctx.p
+    create = p.find_method("AlignmentResultRow", "create")
+    prm0 = V(create.call_params()[0].name)
+    want = T.mk_attr(prm0, "segments")
+    n = 0
+    for pa in explore(ck, create):
+        if pa.outcome != "return" or pa.value[0] != "new":
+            continue
+        seg = dict(pa.value[2]).get("segments")
+        if seg is None:
+            continue
+        n += 1
+        w = where(create, pa.node)
+        inner = seg
+        while inner[0] == "call" and inner[1] in ("list", "tuple") and len(inner[2]) == 1:
+            inner = inner[2][0]
+        if inner == want:
+            ck.ok(rule, short(create) + ":segments", w, "a record keeps the resolver's segments in the resolver's order", T.show(seg)[:100])
+        elif inner[0] == "call" and inner[1] == "sorted" and inner[2] and inner[2][0] == want:
+            key = dict(inner[3]).get("key")
+            has_default = key is not None and any(y[0] == "call" and y[1] == "next" and len(y[2]) == 2 for y in T.subterms(key))
+            if key is not None and key[0] == "fn" and key[1] in p.functions:
+                has_default = any(isinstance(c, ast.Call) and isinstance(c.func, ast.Name) and c.func.id == "next" and len(c.args) == 2
+                                  for c in ast.walk(p.functions[key[1]].node))
+            if has_default:
+                ck.violation(rule, short(create) + ":segments", w,
+                             "the segments of a record are re-sorted with a key that gives pair-less (empty) segments a constant: they move "
+                             "in front of the real ones, and the join - which resolves segments[0] of its two parts - then pairs an empty "
+                             "segment with the other part: one part's pairs are lost although the union is a valid matching",
+                             found=T.show(seg)[:200], required="segmentsWithoutConflicts.segments as they are")
+            else:
+                raise AnalysisError(f"{w}: the segments of a record are re-ordered: {T.show(seg)[:160]}")
+        else:
+            raise AnalysisError(f"{w}: the segments of a record are not the resolver's: {T.show(seg)[:160]}")
+    ck.floor(f"{rule} record constructions in AlignmentResultRow.create", n, 1)
 
 
 def _joined_row(ck):
